@@ -9,6 +9,7 @@
 (* that only extends the deadline is parked between its clock sample and   *)
 (* the store while the deadline passes and maintenance runs; the same      *)
 (* requirements hold afterwards, and a sized cache stays within its bound. *)
+(* Gated read races (op gate-x): see ExpireRace.tla.                       *)
 (***************************************************************************)
 EXTENDS Integers, Sequences, FiniteSets, TLC, Json, IOUtils
 Recs == ndJsonDeserialize(IOEnv.VERIF_TRACE)
@@ -19,7 +20,14 @@ F(idx, name, detail) == [rec |-> idx, pred |-> name, detail |-> ToString(detail)
 Check(r, idx) ==
     (IF r.hang = 1 THEN <<F(idx, "C13.hang", r.sc)>> ELSE <<>>)
     \o (IF r.hang = 0 /\ r.mustsweep = 1 /\ r.est # r.sc.warmlive THEN <<F(idx, "C13.still_counted", <<r.est, r.sc>>)>> ELSE <<>>)
-    \o (IF r.hang = 0 /\ r.mustsweep = 1 /\ r.expired # 1 THEN <<F(idx, "C13.expiration_not_reported", <<r.expired, r.other, r.sc>>)>> ELSE <<>>)
+    \* (a removal that was reported, but as Overflow, is C06's: the cause does not match)
+    \o (IF r.hang = 0 /\ r.mustsweep = 1 /\ r.expired # 1 /\ ~(r.overflow = 1 /\ r.expired = 0) THEN <<F(idx, "C13.expiration_not_reported", <<r.expired, r.other, r.sc>>)>> ELSE <<>>)
+    \* gated read race (ExpireRace.tla): the sweeper is parked between the wheel's test of the deadline and the removal while the
+    \* read stores the extended deadline.  A cache that is not above its maximum (or has none) never reports Overflow, and the
+    \* racing value is reported at most once.
+    \o (IF r.hang = 0 /\ r.nopressure = 1 /\ r.overflow > 0 THEN <<F(idx, "C06.overflow_without_size_pressure", <<r.overflow, r.expired, r.gated, r.sc>>)>> ELSE <<>>)
+    \o (IF r.hang = 0 /\ r.nopressure = 1 /\ r.expired + r.other > 1 THEN <<F(idx, "C06.reported_twice", <<r.expired, r.other, r.sc>>)>> ELSE <<>>)
+    \* an entry that is still present after the race is known to the wheel: covered by still_counted / expiration_not_reported above
     \o (IF r.hang = 0 /\ r.visible = 1 /\ r.deadlinepassed = 1 THEN <<F(idx, "C13.visible_after_deadline", r.sc)>> ELSE <<>>)
     \* a read racing the sweep (it only extends the deadline): a sized cache filled right after the race stays within its maximum
     \o (IF r.hang = 0 /\ r.sc.sized = 1 /\ r.sc.max > 0 /\ r.live > r.sc.max THEN <<F(idx, "C04.bound_after_read_race", <<r.live, r.sc>>)>> ELSE <<>>)
